@@ -54,7 +54,7 @@ PROPS = {
         technique="property-based testing: rapid state machine over the real app, signer table from the statement vs GetSigners, wrongly-signed twins, raw key/value diff of all stores decoded by key layout and by embedded ids",
         level_text="Every message type is executed in reachable states where one owner holds several deployments with prefix-colliding sequence numbers; each transaction's raw store diff must decode (by key layout and, cross-checked, by the ids inside the value) to records of the object the message names; twins signed by another account must be rejected without effect; only the signer's balance may fall.",
         level_note="Trusted: as C01; the key-layout decoder is white-box (anchors key.go files)."),
-    "C07": chain("C07", 40, 800, floor=0.2,
+    "C07": chain("C07", 60, 800, floor=0.2,
         technique="property-based testing: metamorphic repetition (handler run 8x on sibling cache branches, byte-compare writes/results/events) + differential twin app instance",
         level_text="Before each transaction its routed module handler is executed 8 times on sibling branches of the same state and the full store dump, result, gas consumed and events are compared bytewise (certificates expiring at the next full second are executed before and after that instant); a second application instance in the same process receives the identical block stream and must produce identical DeliverTx responses and app hashes.",
         level_note="Trusted: Go map iteration randomisation as the source of divergence (detection probability per two-key map order >= 1-2^-7 per transaction); single process, single architecture."),
